@@ -7,17 +7,20 @@ cd /verif || exit 2
 [ -z "$(git -C /repo status --porcelain)" ] || { echo "/repo is not clean"; exit 2; }
 OUT=seeded/SWEEP.txt
 [ $# -eq 0 ] && : > $OUT
+for id in "$@"; do grep -v "^$id " $OUT > $OUT.tmp 2>/dev/null; mv $OUT.tmp $OUT; done
 for d in ${@:-$(ls -d seeded/C*/ | xargs -n1 basename)}; do
   id=${d%/}
   P=$(python3 - "$id" <<'PY'
 import json, re, sys
 i = sys.argv[1]
 m = json.load(open(f'/verif/seeded/{i}/meta.json'))
-x = re.search(r'detected by the check of (C\d\d)', m.get('check_result', ''))
+r = m.get('check_result', '')
+if not isinstance(r, str): r = json.dumps(r)
+x = re.search(r'detected by (?:the check of )?(C\d\d)', r)
 print(x.group(1) if x else i.split('-')[0])
 PY
 )
-  if ! git -C /repo apply seeded/$id/patch.diff 2>/dev/null; then echo "$id $P noapply" >> $OUT; continue; fi
+  if ! git -C /repo apply /verif/seeded/$id/patch.diff 2>/dev/null; then echo "$id $P noapply" >> $OUT; continue; fi
   L=$(./check $P 2>&1 | grep -E "^VIOLATION|tier=" | tail -1)
   git -C /repo checkout -q -- . ; git -C /repo clean -fdq
   case "$L" in VIOLATION*) echo "$id $P detected $L" >> $OUT ;; *) echo "$id $P MISSED $L" >> $OUT ;; esac
